@@ -116,31 +116,43 @@ def Masks.ofTable (mask : SetName → Nat) : Masks :=
 def setPos (tbl : List Row) (major minor : Nat) : Except TErr (List Nat) :=
   liftE ((mksetpv (tbl.map (·.2.2)) major minor).map positions)
 
-/-- `uset.iloc[:, :0].reset_index().values`: the `[id, dof]` rows -/
-def iddofOf (tbl : List Row) : List (List Int) := tbl.map fun r => [(r.1 : Int), (r.2.1 : Int)]
+section tran
+/- `κ` is the type of an `[id, dof]` row as `locate.mat_intersect` compares it (the driver takes the two-element
+list, ordered lexicographically; the theorems hold for every linear order), `mkKey id dof` builds one. -/
+variable {κ : Type} [DecidableEq κ] [LT κ] [DecidableLT κ] [LE κ] [DecidableLE κ] (mkKey : Nat → Nat → κ)
+variable {α : Type} [Add α] [Mul α] [OfNat α 0] [OfNat α 1] [DecidableEq α]
 
-def dofRows (dof : List (Nat × Nat)) : List (List Int) := dof.map fun d => [(d.1 : Int), (d.2 : Int)]
+/-- `uset.iloc[:, :0].reset_index().values`: the `[id, dof]` rows -/
+def iddofOf (tbl : List Row) : List κ := tbl.map fun r => mkKey r.1 r.2.1
+
+def dofRows (dof : List (Nat × Nat)) : List κ := dof.map fun d => mkKey d.1 d.2
 
 /-- `locate.mat_intersect(iddof[idx], dof)[0]` (keep = 0) -/
-def selIn (iddof : List (List Int)) (idx : List Nat) (dof : List (List Int)) :
-    Except TErr (List Nat) := do
+def selIn (iddof : List κ) (idx : List Nat) (dof : List κ) : Except TErr (List Nat) := do
   let sub ← takeIdx iddof idx
   .ok (matIntersect sub dof 2 2 0).1
 
-section tran
-variable {α : Type} [Add α] [Mul α] [OfNat α 0] [OfNat α 1] [DecidableEq α]
+/-- the requested DOF of one set: `pvdofx = mat_intersect(iddof[x], dof)[0]; x = x[pvdofx]`; with `guard` the
+look-up is skipped for an empty set (`if q.size > 0`) -/
+def selSet (iddof : List κ) (xs : List Nat) (dof : List κ) (guard : Bool) :
+    Except TErr (List Nat × List Nat) :=
+  if guard = true ∧ xs = [] then .ok ([], [])
+  else do
+    let pv ← selIn iddof xs dof
+    let x' ← takeIdx xs pv
+    .ok (pv, x')
 
 /-- `np.nonzero(np.any(A, 0))[0]`: the columns of `A` that hold a non-zero entry -/
 def anyCols (A : M α) : List Nat :=
   (List.range A.c).filter fun j => A.r.any fun row => row[j]? != some 0 && (row[j]?).isSome
 
 /-- `_proc_mset(nas, se, dof)`: `(m, gm)` restricted to the requested m-set DOF; `none` = `hasm == 0` -/
-def procMset (mk : Masks) (tbl : List Row) (gm : Option (M α)) (dof : List (List Int)) :
+def procMset (mk : Masks) (tbl : List Row) (gm : Option (M α)) (dof : List κ) :
     Except TErr (Option (List Nat × M α)) := do
   let m ← setPos tbl mk.g mk.m
   if m = [] then .ok none
   else do
-    let pvdofm ← selIn (iddofOf tbl) m dof
+    let pvdofm ← selIn (iddofOf mkKey tbl) m dof
     if pvdofm = [] then .ok none
     else do
       let m' ← takeIdx m pvdofm
@@ -152,7 +164,7 @@ def procMset (mk : Masks) (tbl : List Row) (gm : Option (M α)) (dof : List (Lis
 
 /-- the rows of the final `tran[pv]`: `pv, pv2 = mat_intersect(fulldof, dof, 2)`; `RuntimeError`
 when a requested DOF is in none of the recovery sets -/
-def reorder (iddof : List (List Int)) (sets : List Nat) (dof : List (List Int)) (npv : Nat)
+def reorder (iddof : List κ) (sets : List Nat) (dof : List κ) (npv : Nat)
     (rows : List (List α)) (w : Nat) : Except TErr (M α) := do
   let fulldof ← takeIdx iddof sets
   let pv := matIntersect fulldof dof 2 2 2
@@ -198,6 +210,88 @@ def mBlock (gm got : M α) (goq : M α) (ct cq : Nat) (t_a q_a t_n o_n q_n : Lis
       else (z2.zip upd).mapM fun p => setCols p.1 q_a p.2
     else pure z2
 
+/-- what `formtran` selects for `se != 0`: per recovery set the matching rows (`pvdofx`: indices into the set,
+`x'`: rows of the table), the `got` / `goq` it will use, the m-set part -/
+structure UpSel (α : Type) where
+  pvdoft : List Nat
+  t' : List Nat
+  pvdofo : List Nat
+  o' : List Nat
+  gotM : M α
+  goqM : M α
+  pm : Option (List Nat × M α)
+  tnoq : List Nat × List Nat × List Nat
+  pvdofq : List Nat
+  q' : List Nat
+  pvdofs : List Nat
+  s' : List Nat
+
+/-- `sets = [t, o, m, q, s]` -/
+def UpSel.sets (x : UpSel α) : List Nat :=
+  x.t' ++ x.o' ++ (match x.pm with | some y => y.1 | none => []) ++ x.q' ++ x.s'
+
+def upSelect (mk : Masks) (tbl : List Row) (got goq gm : Option (M α)) (dofr : List κ) :
+    Except TErr (UpSel α) := do
+  let iddof := iddofOf mkKey tbl
+  let t ← setPos tbl mk.g mk.t
+  let st ← selSet iddof t dofr false
+  let o ← setPos tbl mk.g mk.o
+  let so ← selSet iddof o dofr false
+  let o1 := o.length
+  let goqM ← (match goq with
+    | some g => pure g
+    | none => do
+        let q1 ← setPos tbl mk.g mk.q
+        pure (if q1.length > 0 then ⟨List.replicate o1 (zeroRow q1.length), q1.length⟩ else ⟨[[]], 0⟩)
+    : Except TErr (M α))
+  let gotM ← (match got with
+    | some g => pure g
+    | none => do
+        let t1 ← setPos tbl mk.g mk.t
+        pure ⟨List.replicate o1 (zeroRow t1.length), t1.length⟩ : Except TErr (M α))
+  let pm ← procMset mkKey mk tbl gm dofr
+  let tnoq ← (match pm with
+    | some _ => do
+        let t_n ← setPos tbl mk.n mk.t
+        let o_n ← setPos tbl mk.n mk.o
+        let q_n ← setPos tbl mk.n mk.q
+        pure (t_n, o_n, q_n)
+    | none => pure ([], [], []) : Except TErr (List Nat × List Nat × List Nat))
+  let q ← setPos tbl mk.g mk.q
+  let sq ← selSet iddof q dofr true
+  let s ← setPos tbl mk.g mk.s
+  let ss ← selSet iddof s dofr true
+  .ok ⟨st.1, st.2, so.1, so.2, gotM, goqM, pm, tnoq, sq.1, sq.2, ss.1, ss.2⟩
+
+/-- `tran[R:R+len(x), cols] = np.eye(n)[pv]`: the rows of a retained set (t, q) -/
+def eyeBlock (w n : Nat) (cols pv : List Nat) : Except TErr (List (List α)) := do
+  let e ← takeIdx ((List.range n).map fun k => unitRow (α := α) n k) pv
+  scatterRows w cols e
+
+/-- `tran[R:R+len(o), t_a] = got[pvdofo]; if cq: tran[R:R+len(o), q_a] = goq[pvdofo]` -/
+def oBlock (w : Nat) (gotM goqM : M α) (t_a q_a pvdofo : List Nat) : Except TErr (List (List α)) := do
+  let gotO ← rowsAt gotM pvdofo
+  let oRows0 ← scatterRows w t_a gotO.r
+  if pvdofo ≠ [] ∧ goqM.c ≠ 0 then do
+    let goqO ← rowsAt goqM pvdofo
+    if goqO.r.length ≠ oRows0.length then .error (.base .value)
+    else (oRows0.zip goqO.r).mapM fun p => setCols p.1 q_a p.2
+  else pure oRows0
+
+/-- the rows of `tran` before the final re-ordering, block by block in the order of `sets` -/
+def upBlocks (x : UpSel α) (t_a q_a : List Nat) : Except TErr (List (List α)) := do
+  let ct := x.gotM.c
+  let cq := x.goqM.c
+  let w := ct + cq
+  let tRows ← eyeBlock (α := α) w ct t_a x.pvdoft
+  let oRows ← oBlock w x.gotM x.goqM t_a q_a x.pvdofo
+  let mRows ← (match x.pm with
+    | some y => mBlock y.2 x.gotM x.goqM ct cq t_a q_a x.tnoq.1 x.tnoq.2.1 x.tnoq.2.2
+    | none => pure [] : Except TErr (List (List α)))
+  let qRows ← eyeBlock (α := α) w cq q_a x.pvdofq
+  let sRows : List (List α) := x.s'.map fun _ => zeroRow w
+  .ok (tRows ++ oRows ++ mRows ++ qRows ++ sRows)
+
 /-- `formtran(nas, se, dof, gset)` for `se != 0` on the table, `got` / `goq` / `gm` of that SE (`none` =
 the dictionary has no entry) -/
 def formtranUp (mk : Masks) (tbl : List Row) (got goq gm : Option (M α)) (req : Request) :
@@ -213,62 +307,10 @@ def formtranUp (mk : Masks) (tbl : List Row) (got goq gm : Option (M α)) (req :
     let rows ← takeIdx ((List.range na).map fun k => unitRow (α := α) na k) pvdofa
     .ok (⟨rows, na⟩, dof)
   else do
-    let iddof := iddofOf tbl
-    let dofr := dofRows dof
-    let t ← setPos tbl mk.g mk.t
-    let pvdoft ← selIn iddof t dofr
-    let t' ← takeIdx t pvdoft
-    let o ← setPos tbl mk.g mk.o
-    let pvdofo ← selIn iddof o dofr
-    let o' ← takeIdx o pvdofo
-    let o1 := o.length
-    let goqM ← (match goq with
-      | some g => pure g
-      | none => do
-          let q1 ← setPos tbl mk.g mk.q
-          pure (if q1.length > 0 then ⟨List.replicate o1 (zeroRow q1.length), q1.length⟩ else ⟨[[]], 0⟩)
-      : Except TErr (M α))
-    let gotM ← (match got with
-      | some g => pure g
-      | none => do
-          let t1 ← setPos tbl mk.g mk.t
-          pure ⟨List.replicate o1 (zeroRow t1.length), t1.length⟩ : Except TErr (M α))
-    let ct := gotM.c
-    let cq := goqM.c
-    let w := ct + cq
-    let pm ← procMset mk tbl gm dofr
-    let tnoq ← (match pm with
-      | some _ => do
-          let t_n ← setPos tbl mk.n mk.t
-          let o_n ← setPos tbl mk.n mk.o
-          let q_n ← setPos tbl mk.n mk.q
-          pure (t_n, o_n, q_n)
-      | none => pure ([], [], []) : Except TErr (List Nat × List Nat × List Nat))
-    let q ← setPos tbl mk.g mk.q
-    let pvdofq ← (if q = [] then pure [] else selIn iddof q dofr)
-    let q' ← takeIdx q pvdofq
-    let s ← setPos tbl mk.g mk.s
-    let pvdofs ← (if s = [] then pure [] else selIn iddof s dofr)
-    let s' ← takeIdx s pvdofs
-    let m' := match pm with | some x => x.1 | none => []
-    let sets := t' ++ o' ++ m' ++ q' ++ s'
-    -- the blocks, in the order of `sets`
-    let eyeT ← takeIdx ((List.range ct).map fun k => unitRow (α := α) ct k) pvdoft
-    let tRows ← scatterRows w t_a eyeT
-    let gotO ← rowsAt gotM pvdofo
-    let oRows0 ← scatterRows w t_a gotO.r
-    let oRows ← (if pvdofo ≠ [] ∧ cq ≠ 0 then do
-        let goqO ← rowsAt goqM pvdofo
-        if goqO.r.length ≠ oRows0.length then .error (.base .value)
-        else (oRows0.zip goqO.r).mapM fun p => setCols p.1 q_a p.2
-      else pure oRows0 : Except TErr (List (List α)))
-    let mRows ← (match pm with
-      | some x => mBlock x.2 gotM goqM ct cq t_a q_a tnoq.1 tnoq.2.1 tnoq.2.2
-      | none => pure [] : Except TErr (List (List α)))
-    let eyeQ ← takeIdx ((List.range cq).map fun k => unitRow (α := α) cq k) pvdofq
-    let qRows ← scatterRows w q_a eyeQ
-    let sRows : List (List α) := s'.map fun _ => zeroRow w
-    let out ← reorder iddof sets dofr pvdof.length (tRows ++ oRows ++ mRows ++ qRows ++ sRows) w
+    let dofr := dofRows mkKey dof
+    let x ← upSelect mkKey mk tbl got goq gm dofr
+    let rows ← upBlocks x t_a q_a
+    let out ← reorder (iddofOf mkKey tbl) x.sets dofr pvdof.length rows (x.gotM.c + x.goqM.c)
     .ok (out, dof)
 
 /-- `_formtran_0(nas, dof, gset)`: the residual; `phg` / `pha` / `gm` are the entries for SE 0 -/
@@ -289,8 +331,8 @@ def formtran0 (mk : Masks) (tbl : List Row) (phg pha gm : Option (M α)) (req : 
     match pha with
     | none => .error .runtime
     | some pa => do
-        let iddof := iddofOf tbl
-        let dofr := dofRows dof
+        let iddof := iddofOf mkKey tbl
+        let dofr := dofRows mkKey dof
         let o ← setPos tbl mk.g mk.o
         let vo ← (if o = [] then pure [] else selIn iddof o dofr)
         if vo ≠ [] then .error .runtime
@@ -298,7 +340,7 @@ def formtran0 (mk : Masks) (tbl : List Row) (phg pha gm : Option (M α)) (req : 
           let a ← setPos tbl mk.g mk.a
           let pvdofa ← selIn iddof a dofr
           let a' ← takeIdx a pvdofa
-          let pm ← procMset mk tbl gm dofr
+          let pm ← procMset mkKey mk tbl gm dofr
           let _ ← (match pm with
             | some x => do
                 let o_n ← liftE (mksetpv (tbl.map (·.2.2)) mk.n mk.o)
@@ -333,8 +375,8 @@ def formtran (mk : Masks) (d : NasT α) (se : Nat) (req : Request) (gset : Bool)
     Except TErr (M α × List (Nat × Nat)) := do
   let tbl ← liftE (lookupD d.nas.uset se)
   let opt := fun (l : List (Nat × M α)) => (l.find? (fun p => p.1 = se)).map (·.2)
-  if se = 0 then formtran0 mk tbl (opt d.phg) (opt d.pha) (opt d.gm) req gset
-  else formtranUp mk tbl (opt d.got) (opt d.goq) (opt d.gm) req
+  if se = 0 then formtran0 mkKey mk tbl (opt d.phg) (opt d.pha) (opt d.gm) req gset
+  else formtranUp mkKey mk tbl (opt d.got) (opt d.goq) (opt d.gm) req
 
 /-! ### formulvs, formdrm, addulvs -/
 
@@ -362,7 +404,7 @@ def ulvsLevel (mk : Masks) (d : NasT α) (seup sedown : Nat) (keepcset gset : Bo
   let tqup ← liftE (upasetpv d.nas seup)
   let rows ← takeIdx usetdn tqup
   let iddof := rows.map fun r => (r.1, r.2.1)
-  let (u1, _) ← formtran mk d sedown (.rows iddof) gset
+  let (u1, _) ← formtran mkKey mk d sedown (.rows iddof) gset
   if keepcset then .ok u1
   else do
     let cup ← liftE (mksetpv (usetup.map (·.2.2)) mk.a mk.c)
@@ -384,7 +426,7 @@ def ulvsLoop (mk : Masks) (d : NasT α) (sedn : Nat) (keepcset gset : Bool) :
     Nat → Ulvs α → Nat → Nat → Except TErr (M α)
   | 0, _, _, _ => .error .fuel
   | fuel + 1, acc, seup, sedown => do
-      let u1 ← ulvsLevel mk d seup sedown keepcset gset
+      let u1 ← ulvsLevel mkKey mk d seup sedown keepcset gset
       let acc' ← dotU acc u1
       if sedown = sedn then .ok acc'
       else do
@@ -407,7 +449,7 @@ def formulvs (mk : Masks) (d : NasT α) (ulvs : Option (List (Nat × Ulvs α))) 
                ulvs.bind (fun l => l.find? (fun p => p.1 = seup)) else none) with
       | some p => .ok p.2
       | none => do
-          let m ← ulvsLoop mk d sedn keepcset gset (d.nas.selist.length + 1) .one seup sedown
+          let m ← ulvsLoop mkKey mk d sedn keepcset gset (d.nas.selist.length + 1) .one seup sedown
           .ok (.mat m)
 
 /-- `np.any(t[:, r:])` -/
@@ -416,8 +458,8 @@ def anyFrom (t : M α) (r : Nat) : Bool := t.r.any fun row => (row.drop r).any (
 /-- `formdrm(nas, seup, dof, sedn, gset)` -/
 def formdrm (mk : Masks) (d : NasT α) (ulvs : Option (List (Nat × Ulvs α))) (seup : Nat) (req : Request)
     (sedn : Nat) (gset : Bool) : Except TErr (M α × List (Nat × Nat)) := do
-  let (t, outdof) ← formtran mk d seup req gset
-  let u ← formulvs mk d ulvs seup sedn true true gset
+  let (t, outdof) ← formtran mkKey mk d seup req gset
+  let u ← formulvs mkKey mk d ulvs seup sedn true true gset
   match u with
   | .one => .ok (t, outdof)
   | .mat um =>
@@ -436,7 +478,7 @@ def setD {β : Type} (l : List (Nat × β)) (k : Nat) (v : β) : List (Nat × β
 def addulvs (mk : Masks) (d : NasT α) (ulvs : Option (List (Nat × Ulvs α))) (ses : List Nat)
     (sedn : Nat) (keepcset shortcut gset : Bool) : Except TErr (List (Nat × Ulvs α)) :=
   ses.foldlM (fun acc se => do
-      let u ← formulvs mk d (some acc) se sedn keepcset shortcut gset
+      let u ← formulvs mkKey mk d (some acc) se sedn keepcset shortcut gset
       pure (setD acc se u)) (ulvs.getD [])
 
 end tran
